@@ -8,15 +8,19 @@ From Helm Require Import Common.Assoc Engine.Types Engine.Eff Engine.Ops Engine.
 Import ListNotations.
 
 Definition one_more (m : nat) (cs0 c : list nat) : Prop := c = cs0 \/ c = (cs0 ++ [S m])%list.
-Definition two_more (m : nat) (cs0 c : list nat) : Prop :=
-  c = cs0 \/ c = (cs0 ++ [S m])%list \/ c = (cs0 ++ [S m; S (S m)])%list.
+(* a second Create happens only in the automatic rollback of an atomic upgrade ([at]) *)
+Definition two_more (at_ : bool) (m : nat) (cs0 c : list nat) : Prop :=
+  c = cs0 \/ c = (cs0 ++ [S m])%list \/ (at_ = true /\ c = (cs0 ++ [S m; S (S m)])%list).
 
-Lemma one_two m cs0 c : one_more m cs0 c -> two_more m cs0 c.
+Definition one_more_if (at_ : bool) (m : nat) (cs0 c : list nat) : Prop :=
+  c = cs0 \/ (at_ = true /\ c = (cs0 ++ [S m])%list).
+
+Lemma one_two at_ m cs0 c : one_more m cs0 c -> two_more at_ m cs0 c.
 Proof. unfold one_more, two_more. tauto. Qed.
 
-Lemma one_after_one m cs0 c : one_more (S m) (cs0 ++ [S m]) c -> two_more m cs0 c.
+Lemma one_after_one at_ m cs0 c : one_more_if at_ (S m) (cs0 ++ [S m]) c -> two_more at_ m cs0 c.
 Proof.
-  unfold one_more, two_more. intros [->| ->]; auto. right. right. now rewrite <- app_assoc.
+  unfold one_more_if, two_more. intros [->|[H ->]]; auto. right. right. now rewrite <- app_assoc.
 Qed.
 
 Section Rev.
@@ -59,8 +63,8 @@ Section Rev.
   Qed.
 
   Lemma upgrade_fail_R fl up created l cs :
-    wpA (fun _ c => one_more (mx l) cs c) (upgrade_fail rn ns fl up created)
-        (fun _ c _ => one_more (mx l) cs c) l cs.
+    wpA (fun _ c => one_more_if (f_atomic fl) (mx l) cs c) (upgrade_fail rn ns fl up created)
+        (fun _ c _ => one_more_if (f_atomic fl) (mx l) cs c) l cs.
   Proof.
     unfold upgrade_fail. wp_norm.
     apply wp_update_any; [now left|]. intros l1 _ Hrevs _. apply mx_revs in Hrevs.
@@ -71,13 +75,13 @@ Section Rev.
       destruct (f_atomic fl); [|apply wp_ret; now left].
       apply wp_history. destruct (max_rev_of _) as [g|]; [|apply wp_ret; now left].
       wp_piece rollback_R; cbv beta.
-      + intros _ c H. now rewrite <- Hrevs.
-      + intros l3 c a H. apply wp_ret. now rewrite <- Hrevs.
+      + intros _ c H. rewrite <- Hrevs. destruct H as [->| ->]; [now left|right; auto].
+      + intros l3 c a H. apply wp_ret. rewrite <- Hrevs. destruct H as [->| ->]; [now left|right; auto].
   Qed.
 
   Lemma upgrade_R fl cid vid mani hks l0 cs0 :
-    wpA (fun _ c => two_more (mx l0) cs0 c) (upgrade rn ns fl cid vid mani hks)
-        (fun _ c _ => two_more (mx l0) cs0 c) l0 cs0.
+    wpA (fun _ c => two_more (f_atomic fl) (mx l0) cs0 c) (upgrade rn ns fl cid vid mani hks)
+        (fun _ c _ => two_more (f_atomic fl) (mx l0) cs0 c) l0 cs0.
   Proof.
     unfold upgrade. wp_norm. apply wp_history.
     destruct (max_rev_of l0) as [last|] eqn:Hmax; [|apply wp_ret; now left].
@@ -101,10 +105,10 @@ Section Rev.
       - intros r Hr. destruct (Hin r Hr) as [->|Hr0]; [reflexivity|].
         apply mx_bound in Hr0. lia.
       - exists up. auto. }
-    assert (Hmid : two_more (mx l0) cs0 (cs0 ++ [S (mx l0)])%list) by (right; now left).
+    assert (Hmid : two_more (f_atomic fl) (mx l0) cs0 (cs0 ++ [S (mx l0)])%list) by (right; now left).
     assert (Hfail : forall l created, mx l = S (mx l0) ->
-              wpA (fun _ c => two_more (mx l0) cs0 c) (upgrade_fail rn ns fl up created)
-                  (fun _ c _ => two_more (mx l0) cs0 c) l (cs0 ++ [S (mx l0)])%list).
+              wpA (fun _ c => two_more (f_atomic fl) (mx l0) cs0 c) (upgrade_fail rn ns fl up created)
+                  (fun _ c _ => two_more (f_atomic fl) (mx l0) cs0 c) l (cs0 ++ [S (mx l0)])%list).
     { intros l created Hl. eapply wp_conseq; [apply upgrade_fail_R| |]; cbv beta; rewrite Hl.
       - intros _ c H. now apply one_after_one.
       - intros _ c _ H. now apply one_after_one. }
@@ -179,27 +183,48 @@ Section Rev.
     - intros _ c _ ->. destruct HQ as [[_ [-> _]]|[_ [-> _]]]; [right|left]; congruence.
   Qed.
 
-  Lemma op_R o l0 cs0 :
-    wpA (fun _ c => two_more (mx l0) cs0 c) (op_prog rn ns o)
-        (fun _ c _ => two_more (mx l0) cs0 c) l0 cs0.
+  (* the shape of the created revisions, per operation *)
+  Definition create_shape (o : op) (m : nat) (c : list nat) : Prop :=
+    match o with
+    | OpInstall _ _ _ _ _ | OpRollback _ => c = [] \/ c = [S m]
+    | OpUpgrade fl _ _ _ _ => c = [] \/ c = [S m] \/ (f_atomic fl = true /\ c = [S m; S (S m)])
+    | OpUninstall _ => c = []
+    end.
+
+  Lemma op_R o l0 :
+    wpA (fun _ c => create_shape o (mx l0) c) (op_prog rn ns o)
+        (fun _ c _ => create_shape o (mx l0) c) l0 [].
   Proof.
-    destruct o as [fl cid vid mani hks|fl cid vid mani hks|fl|fl]; cbn [op_prog].
-    - eapply wp_conseq; [apply install_R| |]; cbv beta; intros; now apply one_two.
+    destruct o as [fl cid vid mani hks|fl cid vid mani hks|fl|fl]; cbn [op_prog create_shape].
+    - apply install_R.
     - apply upgrade_R.
-    - eapply wp_conseq; [apply rollback_R| |]; cbv beta; intros; now apply one_two.
-    - eapply wp_conseq; [apply wp_no_create; apply ae_uninstall_nc| |]; cbv beta.
-      + intros _ c ->. now left.
-      + intros _ c _ ->. now left.
+    - apply rollback_R.
+    - apply wp_no_create. apply ae_uninstall_nc.
   Qed.
 
   Lemma run_op_creates o l k0 :
-    let t := snd (run_op K kh dresp rn ns o f l k0) in
-    creates t = [] \/ creates t = [S (mx l)] \/ creates t = [S (mx l); S (S (mx l))].
+    create_shape o (mx l) (creates (snd (run_op K kh dresp rn ns o f l k0))).
   Proof.
-    pose proof (wp_run_op K kh dresp f _ _ _ l k0 (op_R o l [])) as H. cbv zeta in H.
+    pose proof (wp_run_op K kh dresp f _ _ _ l k0 (op_R o l)) as H. cbv zeta in H.
     unfold run_op.
     destruct (run K kh dresp f (op_prog rn ns o) (mkR l k0 0 0 false [])) as [s out].
     cbn [fst snd] in *. destruct H as [H1 H2].
     destruct (dead s); [apply (H1 eq_refl)|apply (H2 eq_refl)].
   Qed.
+
+  Lemma create_shape_above o l c v r :
+    create_shape o (mx l) c -> In v c -> In r l -> rev r < v.
+  Proof.
+    intros Hs Hv Hr. pose proof (mx_bound l r Hr) as B.
+    destruct o; simpl in Hs;
+      repeat match goal with
+             | H : _ \/ _ |- _ => destruct H
+             | H : _ /\ _ |- _ => destruct H
+             end; subst; simpl in Hv;
+      repeat match goal with H : _ \/ _ |- _ => destruct H end; try contradiction; lia.
+  Qed.
+
+  Lemma run_op_created_above o l k0 v r :
+    In v (creates (snd (run_op K kh dresp rn ns o f l k0))) -> In r l -> rev r < v.
+  Proof. exact (create_shape_above o l _ v r (run_op_creates o l k0)). Qed.
 End Rev.
